@@ -360,6 +360,16 @@ def analyse_paths(paths, algo, lanes, k, scalar):
                 # result is an evaluated point and some evaluated point brackets a root with it
                 alts = [z3.And(r.t == tz(xq), z3.Or(*[sgn(tz(fp)) * sgn(tz(fq)) <= 0 for (xp, fp) in pts])) for (xq, fq) in pts]
                 valid(z3.Or(*alts), f'lane {l}: result is not an evaluated point bracketed by one of opposite sign')
+                # the maintained bracket: the result is the end with the smaller |f| of a pair of *adjacent* evaluated
+                # points with opposite signs (every other evaluated point lies outside the open interval between them)
+                ab_ = lambda t_: z3.If(t_ >= 0, t_, -t_)  # noqa
+                alts = []
+                for (xq, fq) in pts:
+                    for (xp, fp) in pts:
+                        lo_, hi_ = z3.If(tz(xq) <= tz(xp), tz(xq), tz(xp)), z3.If(tz(xq) <= tz(xp), tz(xp), tz(xq))
+                        alts.append(z3.And(r.t == tz(xq), sgn(tz(fp)) * sgn(tz(fq)) <= 0, ab_(tz(fq)) <= ab_(tz(fp)),
+                                           *[z3.Not(z3.And(lo_ < tz(x_), tz(x_) < hi_)) for (x_, _f) in pts]))
+                valid(z3.Or(*alts), f'lane {l}: result is not the smaller-|f| end of an adjacent sign-changing pair of evaluated points')
                 if niter < k:
                     tol = 2 * RV(eps) * z3.If(r.t >= 0, r.t, -r.t) + RV(2 * eps)
                     alts = []
@@ -642,6 +652,10 @@ def concrete_f_from_model(model, lane):
 
 def replay(data):
     import copulas.optimize as OO
+    if data.get('what') == 'conformance':
+        bad = conformance()
+        print('\n'.join(bad))
+        return bool(bad)
     if data.get('scalar'):
         return replay_scalar(data)
     if data.get('what') == 'lane dependence':
@@ -668,8 +682,14 @@ def replay(data):
         return out
     lo0, hi0 = los.copy(), his.copy()
     ok_bracket = bool((f(lo0) <= 0).all() and (f(hi0) >= 0).all())
+    evals = []
+
+    def f_rec(x):
+        y = f(x)
+        evals.append((np.atleast_1d(np.asarray(x, dtype=float)).copy(), np.atleast_1d(y).copy()))
+        return y
     try:
-        r = getattr(OO, algo)(f, los.copy(), his.copy(), maxiter=k)
+        r = getattr(OO, algo)(f_rec, los.copy(), his.copy(), maxiter=k)
     except AssertionError:
         print('AssertionError; valid bracket =', ok_bracket)
         return ok_bracket
@@ -689,7 +709,72 @@ def replay(data):
         hi_ = np.minimum(r + w / 2 + 1e-12, hi0)
         if np.any(f(lo_) > 1e-12) or np.any(f(hi_) < -1e-12):
             return True
+    else:
+        # the result is the smaller-|f| end of an adjacent sign-changing pair of evaluated points
+        for i in range(len(r)):
+            pts = [(float(x[i]), float(y[i])) for x, y in evals if len(x) > i]
+            ok = False
+            for xq, fq in pts:
+                if xq != r[i]:
+                    continue
+                for xp, fp in pts:
+                    a_, b_ = min(xq, xp), max(xq, xp)
+                    if np.sign(fp) * np.sign(fq) <= 0 and abs(fq) <= abs(fp) and not any(a_ < x_ < b_ for x_, _ in pts):
+                        ok = True
+            if not ok:
+                print(f'lane {i}: result {r[i]} is not the smaller-|f| end of an adjacent sign-changing pair among the evaluated points {pts}')
+                return True
     return False
+
+
+def conformance():
+    """the real solvers with their default iteration budget on a few closed-form functions: float and integer
+    bracket arrays, roots at either bracket end, mixed valid/invalid lanes (must be rejected), scalar input"""
+    import copulas.optimize as OO
+    out = []
+    fs = {'x - r': (lambda r: (lambda x: x - r)), '(x - r)^3': (lambda r: (lambda x: (x - r) ** 3)),
+          'tanh(x - r)': (lambda r: (lambda x: np.tanh(x - r))), 'expm1(x - r)': (lambda r: (lambda x: np.expm1(x - r)))}
+    cases = [('float brackets', np.array([0.0, 0.0]), np.array([5.0, 7.0]), np.array([2.3, 2.3])),
+             ('integer brackets', np.array([0, 0]), np.array([5, 7]), np.array([2.3, 2.3])),
+             ('integer brackets, one lane', np.array([0]), np.array([100]), np.array([10.0])),
+             ('root at xmax', np.array([-1.0, 0.0]), np.array([7.0, 2.0]), np.array([7.0, 2.0])),
+             ('root at xmin', np.array([2.0, -3.0]), np.array([5.0, 4.0]), np.array([2.0, -3.0])),
+             ('mixed: one root at xmax, one interior', np.array([-1.0, 0.0]), np.array([7.0, 5.0]), np.array([7.0, 1.25]))]
+    for algo in ('bisect', 'chandrupatla'):
+        fn = getattr(OO, algo)
+        for fname, mk_ in fs.items():
+            for cname, lo, hi, roots in cases:
+                f = mk_(roots)
+                lo0, hi0 = lo.copy(), hi.copy()
+                try:
+                    with np.errstate(all='ignore'):
+                        r = np.atleast_1d(np.asarray(fn(f, lo, hi), dtype=float))
+                except Exception as e:
+                    out.append(f'{algo}, f = {fname}, {cname} {lo0.tolist()}..{hi0.tolist()}: raises {type(e).__name__}: {e}')
+                    continue
+                tol = 1e-6 if fname != '(x - r)^3' or algo == 'bisect' else 2e-3    # chandrupatla may stop at |f| tiny for the flat cubic
+                if r.shape != roots.shape or np.any(np.abs(r - roots) > tol) or np.any(r < lo0 - 1e-9) or np.any(r > hi0 + 1e-9):
+                    out.append(f'{algo}, f = {fname}, {cname} {lo0.tolist()}..{hi0.tolist()}: returns {r.tolist()}, roots {roots.tolist()}')
+                if not (np.array_equal(lo, lo0) and np.array_equal(hi, hi0)):
+                    out.append(f'{algo}, {cname}: bracket arrays modified')
+        # an invalid bracket among valid ones must be rejected
+        for lo, hi in ((np.array([0.0, 3.0]), np.array([3.0, 5.0])), (np.array([0.0, 0.0, 0.0]), np.array([5.0, 1.0, 4.0]))):
+            try:
+                with np.errstate(all='ignore'):
+                    r = fn(lambda x: x - 2.3, lo.copy(), hi.copy())
+                out.append(f'{algo}: brackets {lo.tolist()}..{hi.tolist()} for f = x - 2.3 contain an invalid lane but {np.asarray(r).tolist()} is returned')
+            except AssertionError:
+                pass
+            except Exception as e:
+                out.append(f'{algo}: invalid bracket raises {type(e).__name__} instead of being rejected by the assertion')
+    try:
+        a = float(np.asarray(OO.chandrupatla(lambda x: x - 2.3, 0.0, 5.0)))
+        b = float(np.asarray(OO.chandrupatla(lambda x: x - 2.3, np.array([0.0]), np.array([5.0])))[0])
+        if abs(a - b) > 1e-12 or abs(a - 2.3) > 1e-6:
+            out.append(f'chandrupatla scalar input gives {a}, one-element vector {b}, root 2.3')
+    except Exception as e:
+        out.append(f'chandrupatla scalar input raises {type(e).__name__}: {e}')
+    return out
 
 
 def run(tier, seed):
@@ -766,6 +851,11 @@ def run(tier, seed):
                     ck.violation('chandrupatla:scalar', f"chandrupatla scalar input differs from 1-vector: {b['what']}", rep)
                 else:
                     ck.inconcl(f'{name}: {b} not reproduced')
+    bad = conformance()
+    ck.traces_validated = 2 * 4 * 6 + 6
+    for b in bad[:4]:
+        key = 'conformance:' + ('integer brackets' if 'integer brackets' in b else b.split(':')[0][:40])
+        ck.violation(key, b, {'what': 'conformance'})
     return ck.finish()
 
 
